@@ -192,7 +192,12 @@ func (g *gen) filler(inFunc bool) []zn.Stmt {
 	var out []zn.Stmt
 	for i, n := 0, g.pick(4, "nfill"); i < n; i++ {
 		g.n++
-		switch g.pick(9, "fk") {
+		switch g.pick(10, "fk") {
+		case 9:
+			// a call whose own handler raised again, caught one level further out: all of it
+			// has returned before the planted fault
+			out = append(out, show(&zn.Call{Name: "外稳", Args: []zn.Expr{num(float64(g.n))}}))
+			g.labels["rethrown-and-handled-before"] = true
 		case 8:
 			// a call ended by 结束循环 travelling to the caller's loop: it has returned
 			out = append(out, &zn.While{Cond: &zn.BoolLit{V: true}, Body: []zn.Stmt{&zn.ExprStmt{E: &zn.Call{Name: "停"}}}})
@@ -301,6 +306,10 @@ func helpers() []zn.Stmt {
 		&zn.FuncDef{Name: "必败", Params: []string{"数"}, Body: []zn.Stmt{&zn.Return{E: &zn.Bin{Op: "/", L: v("数"), R: num(0)}}}},
 		&zn.FuncDef{Name: "停", Body: []zn.Stmt{&zn.Break{}}},
 		&zn.ClassDef{Name: "别错", Props: []zn.Prop{{Name: "内容", Init: &zn.Str{V: ""}}}},
+		&zn.FuncDef{Name: "重抛", Params: []string{"数"}, Body: []zn.Stmt{&zn.Return{E: &zn.Call{Name: "必败", Args: []zn.Expr{v("数")}}}},
+			Catches: []zn.Catch{{Class: "异常", Body: []zn.Stmt{&zn.Throw{Class: "异常", Args: []zn.Expr{&zn.Str{V: "二次"}}}}}}},
+		&zn.FuncDef{Name: "外稳", Params: []string{"数"}, Body: []zn.Stmt{&zn.Return{E: &zn.Call{Name: "重抛", Args: []zn.Expr{v("数")}}}},
+			Catches: []zn.Catch{{Class: "异常", Body: []zn.Stmt{&zn.Return{E: num(-3)}}}}},
 	}
 }
 
@@ -332,6 +341,10 @@ func TestRuntimeFaults(t *testing.T) {
 				&zn.FuncDef{Name: "稳妥", Params: []string{"数"}, Body: []zn.Stmt{&zn.Return{E: &zn.Call{Name: "必败", Args: []zn.Expr{v("数")}}}}, Catches: []zn.Catch{{Class: "异常", Body: []zn.Stmt{&zn.Return{E: num(-1)}}}}},
 				&zn.FuncDef{Name: "停", Body: []zn.Stmt{&zn.Break{}}},
 				&zn.ClassDef{Name: "别错", Props: []zn.Prop{{Name: "内容", Init: &zn.Str{V: ""}}}},
+				&zn.FuncDef{Name: "重抛", Params: []string{"数"}, Body: []zn.Stmt{&zn.Return{E: &zn.Call{Name: "必败", Args: []zn.Expr{v("数")}}}},
+					Catches: []zn.Catch{{Class: "异常", Body: []zn.Stmt{&zn.Throw{Class: "异常", Args: []zn.Expr{&zn.Str{V: "二次"}}}}}}},
+				&zn.FuncDef{Name: "外稳", Params: []string{"数"}, Body: []zn.Stmt{&zn.Return{E: &zn.Call{Name: "重抛", Args: []zn.Expr{v("数")}}}},
+					Catches: []zn.Catch{{Class: "异常", Body: []zn.Stmt{&zn.Return{E: num(-3)}}}}},
 			}...)
 		} else {
 			main.prog.Body = append(main.prog.Body, helpers()...)
@@ -407,7 +420,7 @@ func TestRuntimeFaults(t *testing.T) {
 				home[i].prog.Body = append(home[i].prog.Body, &zn.FuncDef{Name: fmt.Sprintf("层%d", i), Params: []string{"参"}, Body: body, Catches: catches})
 			}
 		}
-		if useMod && len(mod.prog.Body) == 5 {
+		if useMod && len(mod.prog.Body) == 7 {
 			g.labels["module-unused"] = true
 		}
 		// render every unit with its own layout policy
